@@ -289,3 +289,80 @@ Print Assumptions C08_field_total.
 Print Assumptions C08_scan_total.
 Print Assumptions C08_field_spin_refuted.
 Print Assumptions C08_trim_ascii_exact.
+
+(* ================================================================ phase 3: the tie by translation *)
+From GoMC Require Import Model.C08_syntax Gen.C08gen Proofs.C08_expected Proofs.C08_tie.
+
+(* the bodies tools/gotrans/c08.go translates from the working tree on every run have the recorded
+   statement shapes: server/command Execute / parse / next / StringParser.Parse, registry ReadFrom /
+   ReadTagsFrom, bot's idleTagsDecoder and update-tags case; the node kinds are 0, 1, 2 *)
+Theorem C08_skeletons_translated : forall g cP cp cn ne kn ci ct,
+  map shape c08_sp_Parse = expected_sp_Parse /\
+  map shape (c08_node_parse cP) = expected_node_parse /\
+  map shape (c08_node_next g cP) = expected_node_next /\
+  map shape (c08_Execute g cp cn) = expected_Execute /\
+  map shape (c08_Registry_ReadFrom ne) = expected_Registry_ReadFrom /\
+  map shape c08_Registry_ReadTagsFrom = expected_Registry_ReadTagsFrom /\
+  map shape c08_idle_ReadFrom = expected_idle_ReadFrom /\
+  map shape (c08_update_tags kn ci ct) = expected_update_tags /\
+  (c08_RootNode = 0 /\ c08_LiteralNode = 1 /\ c08_ArgumentNode = 2).
+Proof.
+  intros. repeat split.
+Qed.
+
+(* Node.parse: the model's node_parse IS the interpretation of the translated body (its guards and
+   panics included), for every node and every text, whenever the callee Parse is the model's *)
+Theorem C08_parse_translated : forall cP nd cmd, (forall f c, cP f c = sp_parse f c) ->
+  parse_interp cP nd cmd = node_parse nd cmd.
+Proof. exact parse_interp_ok. Qed.
+
+(* Graph.Execute: the model's execute_f IS the interpretation of the translated body - the index
+   expressions g.nodes[0], g.nodes[next] with their bounds, the order of the tests, the nil-Run test -
+   for every non-empty graph, every line and every fuel on which the model does not run dry *)
+Theorem C08_execute_translated : forall g cp cn, (forall nd c, cp nd c = node_parse nd c) ->
+  (forall nd l, cn nd l = node_next g nd l) ->
+  forall fuel line, g <> [] -> execute_f fuel g line <> ONoFuel ->
+  execute_interp g cp cn fuel line = execute_f fuel g line.
+Proof. exact execute_interp_ok. Qed.
+
+(* StringParser.Parse (all three modes, the escape loop, every slice expression with its bounds) and
+   Node.next (the child-kind dispatch, the children loop with its break, every index expression): the
+   model's sp_parse / node_next ARE the interpretations of the translated bodies, for every input *)
+Theorem C08_string_parser_translated : forall f cmd, sp_interp f cmd = sp_parse f cmd.
+Proof. exact sp_interp_ok. Qed.
+Theorem C08_next_translated : forall g cP nd lft, (forall f c, cP f c = sp_parse f c) ->
+  next_interp g cP nd lft = node_next g nd lft.
+Proof. exact next_interp_ok. Qed.
+
+(* all four bodies together, each callee being the interpretation of the callee's translated body *)
+Definition command_interp (g : graph) (fuel : nat) (line : list N) : outcome :=
+  execute_interp g (parse_interp sp_interp) (next_interp g sp_interp) fuel line.
+Theorem C08_command_translated : forall g fuel line, g <> [] -> execute_f fuel g line <> ONoFuel ->
+  command_interp g fuel line = execute_f fuel g line.
+Proof.
+  intros. apply execute_interp_ok; auto; intros.
+  - apply parse_interp_ok. exact sp_interp_ok.
+  - apply next_interp_ok. exact sp_interp_ok.
+Qed.
+
+(* the no-panic theorem over the interpretation of the translated source: on a well-formed graph every
+   guard of every slice and index expression reached by Execute, parse, next and Parse holds, on every
+   command line: the interpretation ends in a handler call or an error *)
+Theorem C08_command_total_translated : forall g line, wf_graph g = true ->
+  good (command_interp g (length line + 2) line).
+Proof.
+  intros g line W.
+  assert (G: g <> []) by (destruct g; discriminate).
+  pose proof (dispatch_total g line W) as D. unfold execute in D.
+  rewrite (C08_command_translated g _ line G).
+  - exact D.
+  - intros E. rewrite E in D. exact D.
+Qed.
+
+Print Assumptions C08_skeletons_translated.
+Print Assumptions C08_parse_translated.
+Print Assumptions C08_execute_translated.
+Print Assumptions C08_string_parser_translated.
+Print Assumptions C08_next_translated.
+Print Assumptions C08_command_translated.
+Print Assumptions C08_command_total_translated.
